@@ -61,13 +61,13 @@ attrs = %r; svg_attrs = %r; writer = %r; reader = %r
 fd, fn = tempfile.mkstemp(suffix='.svg'); os.close(fd)
 try:
     if writer == 'wsvg':
-        wsvg(paths, attributes=[attrs[i % len(attrs)] for i in range(len(paths))], svg_attributes=dict(svg_attrs), viewbox='0 0 30 20', filename=fn)
+        wsvg(paths, attributes=[attrs[i %% len(attrs)] for i in range(len(paths))], svg_attributes=dict(svg_attrs), viewbox='0 0 30 20', filename=fn)
     elif writer == 'Document':
         doc = Document()
-        for i, p in enumerate(paths): doc.add_path(p, attrs[i % len(attrs)])
+        for i, p in enumerate(paths): doc.add_path(p, attrs[i %% len(attrs)])
         doc.save(fn)
     else:
-        wsvg(paths, attributes=[attrs[i % len(attrs)] for i in range(len(paths))], svg_attributes=dict(svg_attrs), viewbox='0 0 30 20', filename=fn)
+        wsvg(paths, attributes=[attrs[i %% len(attrs)] for i in range(len(paths))], svg_attributes=dict(svg_attrs), viewbox='0 0 30 20', filename=fn)
         sd = SaxDocument(fn); sd.save(fn)
     got_attrs = None; got_svg = None
     if reader == 'svg2paths2': out, got_attrs, got_svg = svg2paths2(fn)
